@@ -1,6 +1,6 @@
 SPECIFICATION TraceSpec
 CONSTANTS KeyWidth = 32
-          Roles = {"priv", "privpub", "trusted"}
+          Roles = {"priv", "privpub", "trusted", "sharedown"}
           Padded = TRUE
           Nodes = {1}
           Passwords <- TracePasswords
